@@ -29,7 +29,10 @@ def alias_for(d: Draw, spec: dict, dname: str, n: Any, tags_ok: bool = True) -> 
 
 
 def draw_selection(d: Draw, spec: dict, dname: str, p_R: float = 0.35, p_X: float = 0.4, p_T: float = 0.6,
-                   p_invalid: float = 0.0, p_tag: float = 0.0) -> dict:
+                   p_invalid: float = 0.0, p_tag: float = 0.0, p_empty: float = 0.05) -> dict:
+    if p_empty and d.bool(p_empty):
+        # explicitly empty selections are selections (nothing selected), not "no selection given"
+        return d.pick([{"T": []}, {"R": []}, {"X": []}, {"T": [], "X": []}])
     g = flat_graph(spec, dname)
     stmts = sorted(n for n in g["nodes"] if n[0] == "s")
     sel: Dict[str, Any] = {}
@@ -83,7 +86,8 @@ def scn_sched(d: Draw, prof: dict, *, selections: float = 0.0, history: float = 
     ops: List[dict] = []
     if config and d.bool(config):
         nodes = []
-        for idx in d.sample(list(range(len(dg["stmts"]))), d.int(1, min(3, len(dg["stmts"])))):
+        cfg_idx = [i for i, s_ in enumerate(dg["stmts"]) if s_["k"] != "dag"]
+        for idx in d.sample(cfg_idx, d.int(1, min(3, len(cfg_idx)))) if cfg_idx else []:
             v: Dict[str, Any] = {}
             if d.bool(0.8):
                 v["priority"] = d.int(-3, 6)
@@ -100,7 +104,7 @@ def scn_sched(d: Draw, prof: dict, *, selections: float = 0.0, history: float = 
             ops.append(dict(op="call", inst="E:main", args=draw_args(d, dg)))
         if ops and ops[0]["op"] == "config" and d.bool(0.6):
             ops.append(ops.pop(0))   # reconfigure after earlier calls: nothing computed for the old configuration may survive
-    if compose and d.bool(compose):
+    if compose and all(s_["k"] != "dag" for s_ in dg["stmts"]) and d.bool(compose):
         # derive a composed DAG (and maybe run it) before the call under test: must not change the original
         g = flat_graph(spec, "main")
         non_setup = sorted(n for n in g["nodes"] if n[0] == "s" and not (
@@ -114,7 +118,8 @@ def scn_sched(d: Draw, prof: dict, *, selections: float = 0.0, history: float = 
             ops.append(dict(op="compose", inst="E:main", inputs=[["id", i_node[1]]], outputs=[["id", o_node[1]]], single=True, **{"as": "cmp"}))
             if d.bool(0.5):
                 ops.append(dict(op="call", inst="cmp", args=[str(d.int(1, 50))]))
-    if selections and d.bool(selections):
+    flat = all(s_["k"] != "dag" for s_ in dg["stmts"])
+    if selections and flat and d.bool(selections):
         sel = draw_selection(d, spec, "main")
         ops.append(dict(op="executor", inst="E:main", sel=sel, ex="e0"))
         if dg["has_setup"] and d.bool(0.35):
@@ -125,9 +130,12 @@ def scn_sched(d: Draw, prof: dict, *, selections: float = 0.0, history: float = 
     return base_scn(spec, ops)
 
 
-P_C02 = gen.profile(**{**gen.SCHED, "swarm": ("resources", "p_dep", "max_args", "p_seq", "p_prio"), "p_flag": 0.25})
-P_C03 = gen.profile(**{**gen.SCHED, "swarm": ("resources", "p_dep", "max_args", "p_seq", "p_prio"), "p_reuse": 0.5, "p_setup": 0.12, "p_flag": 0.3, "p_unpack": 0.5, "p_fn_unpack": 0.1,
-                       "ret_types": [("int", 4), ("bool", 2), ("tuple2", 3), ("dict", 1)]})
+P_C02 = gen.profile(**{**gen.SCHED, "swarm": ("resources", "p_dep", "max_args", "p_seq", "p_prio"), "p_flag": 0.25, "w_nested": 1.2,
+                       "max_depth": 2, "p_kwarg": 0.3, "p_index": 0.5, "p_unpack": 0.4,
+                       "ret_types": [("int", 5), ("bool", 2), ("tuple2", 3), ("list3", 1), ("dict", 1), ("none", 1)]})
+P_C03 = gen.profile(**{**gen.SCHED, "swarm": ("resources", "p_dep", "max_args", "p_seq", "p_prio"), "w_nested": 1.2, "max_depth": 1,
+                       "p_nested_flag": 0.3, "p_reuse": 0.5, "p_setup": 0.12, "p_flag": 0.3, "p_unpack": 0.5, "p_fn_unpack": 0.1,
+                       "ret_types": [("int", 4), ("bool", 2), ("tuple2", 3), ("dict", 1), ("none", 1)]})
 P_C04 = gen.profile(**{**gen.SCHED, "swarm": ("resources", "p_dep", "max_args", "p_seq", "p_prio"), "shape_bias": [("wide", 3), ("uniform", 1)], "mc": (1, 3), "p_flag": 0.05,
                        "resources": [("thread", 4), ("async_thread", 3), ("main_thread", 2)]})
 P_C05 = gen.profile(**{**gen.SCHED, "p_seq": 0.35, "mc": (2, 5), "n_stmts": (3, 10)})
@@ -146,11 +154,11 @@ def g_c03(d: Draw) -> dict:
 
 
 def g_c04(d: Draw) -> dict:
-    return scn_sched(d, P_C04)
+    return scn_sched(d, P_C04, config=0.35, history=0.3)
 
 
 def g_c05(d: Draw) -> dict:
-    return scn_sched(d, P_C05)
+    return scn_sched(d, P_C05, selections=0.3, config=0.15)
 
 
 def g_c06(d: Draw) -> dict:
@@ -276,7 +284,7 @@ def with_fault_variants(d: Draw, scn: dict, pairs: int = 3, none_first: bool = F
     paths = sorted(p for p, s in (exp.status.items() if exp is not None and exp.exec_paths is not None else []) if s == "exec")
     variants: List[list] = [[]] if none_first else []
     for p in paths:
-        for when, kind in (("late", "exc"), ("early", "exc"), ("late", "base")):
+        for when, kind in (("late", "exc"), ("early", "exc"), ("late", "base"), ("late", "exc2")):
             variants.append([dict(op=[0, last], path=[list(x) for x in p], when=when, kind=kind)])
     if len(paths) >= 2:
         for _ in range(pairs):
@@ -324,6 +332,15 @@ def g_c07(d: Draw) -> dict:
     if d.bool(0.3):
         ops.append(dict(op="deepcopy", inst="E:main", **{"as": "B"}))
         ops.append(dict(op="cprio", inst="B"))
+    if flat and d.bool(0.3):
+        # a DAG composed from this one has its own table (its node set is built from a Python set of ids)
+        g = flat_graph(spec, "main")
+        stmts = sorted(n for n in g["nodes"] if n[0] == "s")
+        outs = d.sample(stmts, d.int(1, min(2, len(stmts))))
+        ins = [n for n in d.sample(stmts, d.int(0, 2)) if n not in outs]
+        ops.append(dict(op="compose", inst="E:main", inputs=[["id", n[1]] for n in ins], outputs=[["id", n[1]] for n in outs],
+                        single=False, **{"as": "cmp"}))
+        ops.append(dict(op="cprio", inst="cmp"))
     if flat and d.bool(0.5):
         sel = draw_selection(d, spec, "main")
         ops.append(dict(op="executor", inst="E:main", sel=sel, ex="e0"))
@@ -505,8 +522,20 @@ def g_c18(d: Draw) -> dict:
     else:
         ops.append(dict(op="executor", inst="E:main", ex="r", cache_deps_of=T, from_cache="c.pkl"))
     # a restart with other arguments supplies all of them (omitted ones would come from the cache file, not from the defaults)
+    fresh = d.bool(0.3)
+    if fresh:
+        ops[-1]["inst"] = "F:main"   # restart on a freshly built instance (nothing set up, nothing computed)
     ops.append(dict(op="exrun", ex="r", args=draw_args(d, dg, 0.0) if d.bool(0.35) else args))
-    return base_scn(spec, ops)
+    if d.bool(0.3):
+        # second round on the SAME path with another selection: the file is rewritten, the restart must see the new content
+        ops.append(dict(op="executor", inst="E:main", ex="w2", cache_in="c.pkl"))
+        ops.append(dict(op="exrun", ex="w2", args=args))
+        ops.append(dict(op="read_cache", file="c.pkl", inst="E:main"))
+        ops.append(dict(op="executor", inst="E:main", ex="r2", from_cache="c.pkl"))
+        ops.append(dict(op="exrun", ex="r2", args=args))
+    scn = base_scn(spec, ops)
+    scn["prebuild"].append(dict(env="F", dags=spec["order"]))
+    return scn
 
 
 def g_c19(d: Draw) -> dict:
@@ -560,7 +589,11 @@ def g_c15(d: Draw) -> dict:
         elif mode in ("exec", "exec2", "execfail2"):
             sel = draw_selection(d, spec, "main", p_R=0.1, p_X=0.2, p_T=0.5)
             ops.append(dict(op="executor", inst="E:main", sel=sel, ex=f"e{j}"))
-            ops.append(dict(op="exrun", ex=f"e{j}", args=draw_args(d, dg)))
+            nreq = sum(1 for x in dg["params"] if not x[1])
+            if mode == "exec2" and nreq and d.bool(0.3):
+                ops.append(dict(op="exrun", ex=f"e{j}", args=draw_args(d, dg)[:nreq - 1]))   # a required argument is missing
+            else:
+                ops.append(dict(op="exrun", ex=f"e{j}", args=draw_args(d, dg)))
             if mode == "execfail2" and calls_idx:
                 faults.append(dict(op=[0, j + 1], path=[["main", d.pick(calls_idx)]], when="late", kind="exc"))
             if mode != "exec":
@@ -576,9 +609,16 @@ def g_c15(d: Draw) -> dict:
         elif mode == "compose":
             g = flat_graph(spec, "main")
             stmts = sorted(x for x in g["nodes"] if x[0] == "s")
-            o = d.pick(stmts)
-            ops.append(dict(op="compose", inst="E:main", inputs=[], outputs=[alias_for(d, spec, "main", o)], single=True,
-                            **{"as": f"cmp{j}"}))
+            with_succ = [n for n in stmts if any(m[0] == "s" for m in g["succ"][n])]
+            if with_succ and d.bool(0.7):
+                i_node = d.pick(with_succ)
+                o = d.pick(sorted(m for m in g["succ"][i_node] if m[0] == "s"))
+                ops.append(dict(op="compose", inst="E:main", inputs=[["id", i_node[1]]], outputs=[alias_for(d, spec, "main", o)],
+                                single=True, **{"as": f"cmp{j}"}))
+            else:
+                o = d.pick(stmts)
+                ops.append(dict(op="compose", inst="E:main", inputs=[], outputs=[alias_for(d, spec, "main", o)], single=True,
+                                **{"as": f"cmp{j}"}))
         ops.append(dict(op="results_keys", inst="E:main"))
     ops.append(dict(op="call", inst="E:main", args=draw_args(d, dg)))
     ops.append(dict(op="results_keys", inst="E:main"))
@@ -624,12 +664,21 @@ def g_c16(d: Draw) -> dict:
             else:
                 ops.append(dict(op="xn_outside", fn=d.pick(fnames), args=[d.pick(ARG_VALUES) for _ in range(d.int(0, 2))]))
         clients.append(ops)
+    builders = [c for c, ops_ in enumerate(clients) if any(o["op"] == "build" for o in ops_)]
+    if len(builders) == 1 and d.bool(0.5):
+        for o in clients[builders[0]]:
+            if o["op"] == "build":
+                for dn, ps in o["pauses"].items():
+                    for k_ in list(ps):
+                        if ps[k_] == "pause":
+                            ps[k_] = "peer"
     scn = dict(program=spec, refbuild=[dict(dags=spec["order"])], prebuild=[dict(dags=spec["order"])], clients=clients)
     scn["line_points"] = sorted(d.sample(list(range(1, 1200)), d.int(0, 3)))
     return scn
 
 
 reg(Prop("C16", g_c16, {"value": "C16.a", "build_table": "C16.c", "raise": "C16.d", "wrongexc": "C16.d", "noraise": "C16.d",
+                        "deadlock": "C16.d", "livelock": "C16.d",
                         "args": "C16.a", "count_extra": "C16.a", "count_missing": "C16.a"},
          nontrivial="concurrent", n_sched=3, quick=2500, thorough=100000))
 
